@@ -166,6 +166,19 @@ func (s *PfcpServer) VerifDumpState() VerifDump {
 
 func (s *PfcpServer) VerifSetTxSeq(v uint32) { s.txSeq = v }
 
+// VerifSetURRSeq positions the UR-SEQN counter of one URR (only while the event loop is idle)
+func (s *PfcpServer) VerifSetURRSeq(lid uint64, urr uint32, v uint32) bool {
+	if lid == 0 || lid > uint64(len(s.lnode.sess)) || s.lnode.sess[lid-1] == nil {
+		return false
+	}
+	info, ok := s.lnode.sess[lid-1].URRIDs[urr]
+	if !ok {
+		return false
+	}
+	info.SEQN = v
+	return true
+}
+
 func (s *PfcpServer) VerifChanLens() (int, int, int) { return len(s.rcvCh), len(s.srCh), len(s.trToCh) }
 
 // VerifTxKeys returns the keys the real constructors give a sender-side and a receiver-side transaction (C06)
